@@ -291,21 +291,16 @@ Proof. exact no_leaked_active_dial_l. Qed.
 Print Assumptions c05_composite_no_leaked_active_dial.
 
 (* "every address ... is attempted unless ... every caller has given up": in the composite a
-   job of a live generation must stay in the limiter until it reports (NLJ).  This is FALSE
-   of the faithful model: the deferred clearAllPeerDials of a worker that returns late deletes
-   the per-peer queue wholesale, including the live jobs of a newer active dial for the same
-   peer (schedule stale_exit_schedule; replayed on the implementation by the corpus scenario
-   c05DialPeerStaleExit, known finding).  It holds for every schedule in which a closed
-   worker returns only while no live job waits on its peer's limit. *)
-Theorem c05_composite_no_lost_job_refuted :
-  exists ls, Forall wf_label ls /\ ~ NLJ (reach 4 1 [1; 2] ls).
-Proof. exact no_lost_job_refuted_l. Qed.
-Print Assumptions c05_composite_no_lost_job_refuted.
-
-Theorem c05_composite_no_lost_job_partial : forall fdl ppl fd ls, 0 <= fdl -> 0 <= ppl ->
-  Forall wf_label ls -> safe_run (init_c fdl ppl fd) ls -> NLJ (reach fdl ppl fd ls).
-Proof. exact no_lost_job_partial_l. Qed.
-Print Assumptions c05_composite_no_lost_job_partial.
+   job of a live generation (shared context not cancelled) stays in the limiter - queued, about
+   to run or dialing - until it reports, for EVERY schedule.  (Before the repair "fix: swarm:
+   clearAllPeerDials dropped the live dial jobs of a newer active dial" this was false: the
+   deferred clearAllPeerDials of a worker that returns late deleted the per-peer queue
+   wholesale; see the example composite_stale_exit_old_vs_new and the regression scenario
+   c05DialPeerStaleExit of the harness.) *)
+Theorem c05_composite_no_lost_job : forall fdl ppl fd ls, 0 <= fdl -> 0 <= ppl ->
+  Forall wf_label ls -> NLJ (reach fdl ppl fd ls).
+Proof. exact no_lost_job_l. Qed.
+Print Assumptions c05_composite_no_lost_job.
 
 (* HEADLINE (composite): the DialPeer monitor that judges the implementation's traces, run
    on the trace of the composite model under the harness-level semantics (SpecComposite:
@@ -313,7 +308,7 @@ Print Assumptions c05_composite_no_lost_job_partial.
    _partial: clauses 1-3, 5-8 are not proved over the model traces (they need a coupling of
    the monitor's caller/dial bookkeeping with the composite state and a completeness argument
    for the drain; their state-level counterparts are the theorems above), and clause 9
-   (every candidate attempted) is false of the model on the schedule of the finding. *)
+   (every candidate attempted) has the state-level counterpart c05_composite_no_lost_job. *)
 Theorem c05_composite_monitor_accepts_partial : forall fdl ppl fds xs, 0 <= fdl -> 0 <= ppl ->
   forall d, monitor_d fdl ppl (mkDmon [] [] [] false false) 0 (ctrace (init_denv, init_c fdl ppl fds) xs) = d ->
   d = [] \/ exists j c, d = [ERR_PROPERTY; j; c] /\ c <> 4.
@@ -397,10 +392,15 @@ Example dialpeer_monitor_rejects_shared_cancel :
                             4; 1;        1; 1; 2; 0; 1; 7;  0; 0; 0; 0; 1; 0; 1] <> [].
 Proof. vm_compute. discriminate. Qed.
 
-(* the witness of the finding, evaluated: job 6 (generation 4, live) is queued before the old
-   worker returns and gone afterwards *)
-Example composite_stale_exit_loses_job :
-  let s := reach 4 1 [1; 2] stale_exit_schedule in
-  jget 6 s = Some (mkJ 4 2 false) /\ cancelledG (c_lim s) = [1] /\ in_limiter (c_lim s) 6 = false /\
-  in_limiter (c_lim (reach 4 1 [1; 2] (removelast stale_exit_schedule))) 6 = true.
-Proof. exact stale_exit_loses_job. Qed.
+(* the schedule of the repaired defect, evaluated: before the old worker returns job 6
+   (generation 4, live) is queued; the code before the repair (clear_peer_old) drops it, the
+   repaired clearAllPeerDials keeps it *)
+Example composite_stale_exit_old_vs_new :
+  let pre := reach 4 1 [1; 2] (removelast stale_exit_schedule) in
+  jget 6 pre = Some (mkJ 4 2 false) /\ cancelledG (c_lim pre) = [1] /\
+  in_limiter (c_lim pre) 6 = true /\
+  in_limiter (clear_peer_old (c_lim pre) 1) 6 = false /\
+  in_limiter (clear_peer (c_lim pre) 1) 6 = true /\
+  in_limiter (c_lim (reach 4 1 [1; 2] stale_exit_schedule)) 6 = true.
+Proof. exact stale_exit_old_vs_new. Qed.
+
